@@ -215,8 +215,16 @@ func strRange(r *object.PanRange, runes []rune) object.PanObject {
 		return strIndex(i, runes)
 	})
 	var out bytes.Buffer
-	for _, elem := range runeArr.(*object.PanArr).Elems {
-		out.WriteString(elem.(*object.PanStr).Value)
+	arr, ok := runeArr.(*object.PanArr)
+	if !ok {
+		// error (such as 0 step)
+		return runeArr
+	}
+	for _, elem := range arr.Elems {
+		// NOTE: index out of range (nil) is ignored
+		if str, ok := elem.(*object.PanStr); ok {
+			out.WriteString(str.Value)
+		}
 	}
 	return object.NewPanStr(out.String())
 }
